@@ -12,6 +12,7 @@ import FuraxModel.Landscape
 import FuraxModel.Config
 import FuraxModel.Index
 import FuraxModel.Einsum
+import FuraxModel.EinsumEval
 import FuraxModel.Diagonal
 import FuraxModel.StokesArith
 import FuraxModel.Acquisition
@@ -204,9 +205,24 @@ def handleIndex (cmd : String) (args : List SExp) : Option SExp :=
     some (list [atom "ok", ofRats (Index.scatterAdd (← n.nat?) (← pos.nats?) (← y.rats?))])
   | _, _ => none
 
-/-- `(einsum-transpose SUBSCRIPTS)`, `(einsum-parse SUBSCRIPTS)` -/
+/-- `(einsum-transpose SUBSCRIPTS)`, `(einsum-parse SUBSCRIPTS)`,
+`(einsum-eval SUBSCRIPTS (V (shape) (data)) (V (shape) (data)))` → `(ok (V (shape) (data)))` with NumPy's accept /
+reject rules, `(einsum-eval-jax …)` the same but summing over unmentioned ellipsis dimensions as `jax.numpy.einsum` does (see EinsumEval.lean),
+`(einsum-shape SUBSCRIPTS (bshape) (xshape))` → `(ok (shape))` -/
 def handleEinsum (cmd : String) (args : List SExp) : Option SExp :=
   match cmd, args with
+  | "einsum-eval", [atom s, b, x] => do
+    match Einsum.einsum2 s (← decTensor b) (← decTensor x) with
+    | .ok t => some (list [atom "ok", encTensor t])
+    | .error e => some (replyErr e)
+  | "einsum-eval-jax", [atom s, b, x] => do
+    match Einsum.einsum2With .jax s (← decTensor b) (← decTensor x) with
+    | .ok t => some (list [atom "ok", encTensor t])
+    | .error e => some (replyErr e)
+  | "einsum-shape", [atom s, b, x] => do
+    match Einsum.outShape s (← b.nats?) (← x.nats?) with
+    | .ok sh => some (list [atom "ok", ofNats sh])
+    | .error e => some (replyErr e)
   | "einsum-transpose", [atom s] =>
     match Einsum.transposedSubscripts s with
     | .ok t => some (list [atom "ok", atom t])
